@@ -146,6 +146,8 @@ pub struct ExecOut {
     pub build_error: Option<String>,
     pub errors: Vec<String>,
     pub main_task: u16,
+    /// pool id of the task that called dispatch (0 = not a pool task)
+    pub main_pool: u8,
     pub spawn_panics: usize,
     pub pool_lock_ok: bool,
     /// (world values, borrow state, local counters) after each dispatch
@@ -278,9 +280,18 @@ fn run_script(sc: &Scenario, ctx: &Arc<Ctx>, pool: Option<Arc<rayon::ThreadPool>
 /// controlled execution or inline).  `twin` = run the sequential twin instead.
 pub fn run_scenario(sc: &Scenario, twin: bool) -> ExecOut {
     let info = PlanInfo::of(&sc.ops);
+    if !twin && rayon::verif::controlled() && sc.foreign_pool.is_some() && sc.script.is_none() && sc.mode != Mode::Async && info.nodes.iter().any(|n| n.kind == Kind::Tl) {
+        // a dispatcher with thread-local systems cannot be sent to another thread: its whole life (registration, build,
+        // dispatches) takes place on a worker of the foreign pool
+        let foreign = rayon::ThreadPoolBuilder::new().num_threads(sc.foreign_pool.unwrap()).build().unwrap();
+        let mut inner = sc.clone();
+        inner.foreign_pool = None;
+        return foreign.install(move || run_scenario(&inner, false));
+    }
     let ctx = Ctx::new(info.n(), Ctx::identity_map());
     let mut out = ExecOut::default();
     out.main_task = if rayon::verif::controlled() { shuttle::current::get_current_task().map(usize::from).unwrap_or(0) as u16 } else { 0 };
+    out.main_pool = rayon::verif::current_pool().map(|p| if p == 0 { u8::MAX } else { p as u8 }).unwrap_or(0);
     ctx.typed_panics.store(sc.panic_typed, std::sync::atomic::Ordering::Relaxed);
     {
         let mut b = ctx.beh.lock().unwrap();
@@ -742,7 +753,7 @@ pub fn analyze(m: &Mon, sc: &Scenario, info: &PlanInfo, out: &ExecOut, twin: Opt
                 let id = e.sys as usize;
                 if matches!(e.kind, Ev::FetchBegin | Ev::Fetched | Ev::Release) && info.nodes.get(id).map_or(false, |n| n.kind == Kind::Tl) {
                     if info.nodes[id].parent.is_none() {
-                        if e.task != out.main_task || e.pool != 0 {
+                        if e.task != out.main_task || e.pool != out.main_pool {
                             vs.push(v("C12", "tl-not-on-calling-thread", format!("top-level thread-local system {} ran in task {} (pool {}), the caller is task {}", id, e.task, e.pool, out.main_task)));
                         }
                     } else if e.pool != 0 && parallel {
